@@ -355,7 +355,11 @@ def outsideModel (c0 : Case) : Bool :=
   let pool : List Bytes := (c.get ++ c.post ++ c.hdr).flatMap fun p => [p.1, p.2]
   let hexOut := c.rules.any fun r => r.links.any fun l =>
     l.tfs.any (fun t => t.toLower == "hexdecode") && pool.any (chainLeavesAscii l.tfs)
-  (caseTf && (nonAscii c.get || nonAscii c.post || nonAscii c.hdr || decoded)) || rxOut || rxOpOut || macroOut || hexOut
+  -- the harness configures SecArgumentsLimit 8 and the model has no argument limit: with eight distinct names in
+  -- ARGS_GET (or ARGS_POST) the engine refuses further values, so such requests are outside the model
+  let distinctNames (ps : List (Bytes × Bytes)) : Nat := ((ps.map fun p => p.1.map asciiLower).eraseDups).length
+  let limitOut := distinctNames (uriArgs.drop 1 ++ c0.get) ≥ 8 || distinctNames c0.post ≥ 8
+  (caseTf && (nonAscii c.get || nonAscii c.post || nonAscii c.hdr || decoded)) || rxOut || rxOpOut || macroOut || hexOut || limitOut
 
 def modelIn (rxm : RxMode) (args : List String) : Option String :=
   match args with
